@@ -15,7 +15,7 @@ func init() {
 	register(&Rule{Name: "GLOBAL.ro", Min: 8, Doc: "no library function writes package-level state; no ambient nondeterminism imported", Run: ruleGlobalRO})
 	register(&Rule{Name: "COPY.deep", Min: 5, Doc: "WarriorData.Copy shares nothing with its receiver; AddWarrior keeps only the copy; value types hold no references", Run: ruleCopyDeep})
 	register(&Rule{Name: "MAP.order", Min: 3, Doc: "every range over a map only feeds order-insensitive results", Run: ruleMapOrder})
-	register(&Rule{Name: "WIRE.listing", Min: 7, Doc: "listing: opcode, modifier (omitted in '88), A-mode, signed A, B-mode, signed B of the same instruction; START on index == Start; ORG/END decoration", Run: ruleWireListing})
+	register(&Rule{Name: "WIRE.listing", Min: 5, Doc: "listing: opcode, modifier (omitted in '88), A-mode, signed A, B-mode, signed B of the same instruction; START on index == Start; ORG/END decoration", Run: ruleWireListing})
 	register(&Rule{Name: "WIRE.cli", Min: 10, Doc: "flags reach the configuration fields, placement and round count they name", Run: ruleWireCLI})
 	register(&Rule{Name: "WIRE.tally", Min: 5, Doc: "each counter is incremented on exactly the truth-table row it names; printed as (win,tie) per warrior", Run: ruleWireTally})
 }
@@ -628,7 +628,7 @@ func ruleWireListing(w *World, r *RuleResult) {
 	}
 	// signed helper(s): every return is a or a - M
 	for name := range signedFn {
-		for _, f := range libFuncs(w) {
+		for _, f := range libRoots(w) {
 			if fnKey(f) != name {
 				continue
 			}
